@@ -123,6 +123,11 @@ Proof. apply carries_all_app_l. Qed.
 Lemma forallb_ext' {A} (f g : A -> bool) l : (forall x, f x = g x) -> forallb f l = forallb g l.
 Proof. intros H. induction l as [|x l IH]; simpl; [reflexivity|]. rewrite H, IH. reflexivity. Qed.
 
+(* the model reads Summary.Tags() as [summary_tags]: the Go function (second regexp run, NewTagOrPanic) returns exactly
+   that set on every input and never panics *)
+Lemma summary_tags_total lines : go_summary_tags_o lines = Ok (q_summary_tags lines).
+Proof. apply go_summary_tags. Qed.
+
 (* isSubsetOf on Summary.Tags() / on the merged set, in terms of the tags found *)
 Lemma subset_record qs lines : is_subset_of qs (q_summary_tags lines) = carries_all (found lines) qs.
 Proof.
